@@ -2,12 +2,16 @@
     Property theorems only; model in Model/Func.v, proofs in Proofs/C07{Dict,Inv,Ops,Main,Thm}.v.
 
     [run ops] is the state of the model of PEPit/function.py after the op sequence [ops]
-    (NewPoint / NewExpr / NewLeaf / Combine / Oracle / Gradient / Value / Stationary / Fixed / AddPoint,
+    (NewPoint / NewExpr / NewLeaf / Combine / Direct / Oracle / Gradient / Value / Stationary / Fixed / AddPoint,
     on leaf and composite functions, in any order).  [ops_ok ops] is the decidable side condition:
-      [op_scoped]  ids exist, dictionaries have unique keys, no empty composite, user-level add_point on a
-                   point not yet recorded for the function or its terms (how the primitive steps call it);
-      [op_guard]   every composite's merged weights are non-zero (excludes F-C07a and F-C07c) and no query
-                   point has an explicit zero coefficient (excludes F-C07b).
+      [op_scoped]  ids exist, dictionaries have unique keys, a composite has >= 1 operand, user-level add_point
+                   on a point not yet recorded for the function or its terms (how the primitive steps call it);
+      [op_guard]   no composite is the zero function: its weights (built as Python builds them since /repo
+                   5162ea4: bare scaling first, then merge-and-PRUNE per [+]) are neither a bare zero scaling
+                   [{f: 0}] (F-C07d) nor empty because everything cancelled (F-C07c); a dictionary handed
+                   directly to the constructor ([Direct]) has no zero weight and is not empty (F-C07e); no
+                   query point has an explicit zero coefficient (F-C07b).  Cancelling weights such as f1 + f2 - f2 are ACCEPTED
+                   (the repaired F-C07a; see the regression examples at the end).
     Without [op_guard] the statement is refuted ([C07_inv_refuted_*]). *)
 From Coq Require Import List QArith Reals Qreals Lra Bool Arith.
 From PV Require Import Base.IPS Model.Dict Model.Terms Model.Func Spec.Sem
@@ -34,21 +38,21 @@ Theorem C07_inv_b_sound : forall s, inv_b s = true -> inv s.
 Proof. exact inv_b_sound. Qed.
 
 (** Unguarded statement refuted: well-scoped op sequences that break the invariant. *)
-Theorem C07_inv_refuted_zero_weight :      (* F-C07a, live term not differentiable: a LEAF gets two values at x *)
+Theorem C07_inv_refuted_zero_scaling :     (* F-C07d: F = 0*f keeps {f: 0}; F.oracle(x) records two fresh leaves for the zero function *)
   exists ops, ops_scoped ops = true /\ ~ inv (run ops).
-Proof. exact (ex_intro _ ops_zero_weight refuted_zero_weight). Qed.
-
-Theorem C07_inv_refuted_zero_weight_diff : (* F-C07a, live term differentiable: composite sample unrelated to its term's *)
-  exists ops, ops_scoped ops = true /\ ~ inv (run ops).
-Proof. exact (ex_intro _ ops_zero_weight_diff refuted_zero_weight_diff). Qed.
-
-Theorem C07_inv_refuted_zero_query :       (* F-C07b: 0*y queried twice: two values at the point {} *)
-  exists ops, ops_scoped ops = true /\ ~ inv (run ops).
-Proof. exact (ex_intro _ ops_zero_query refuted_zero_query). Qed.
+Proof. exact (ex_intro _ ops_zero_scaling refuted_zero_scaling). Qed.
 
 Theorem C07_inv_refuted_all_weights_cancel : (* F-C07c: stationary point of f - f records a free value for the zero function *)
   exists ops, ops_scoped ops = true /\ ~ inv (run ops).
 Proof. exact (ex_intro _ ops_all_cancel refuted_all_cancel). Qed.
+
+Theorem C07_inv_refuted_ctor_zero_weight : (* F-C07e: {f1: 1, f2: 0} handed to the constructor: a LEAF gets two values at x *)
+  exists ops, ops_scoped ops = true /\ ~ inv (run ops).
+Proof. exact (ex_intro _ ops_ctor_zero_weight refuted_ctor_zero_weight). Qed.
+
+Theorem C07_inv_refuted_zero_query :       (* F-C07b: 0*y queried twice: two values at the point {} *)
+  exists ops, ops_scoped ops = true /\ ~ inv (run ops).
+Proof. exact (ex_intro _ ops_zero_query refuted_zero_query). Qed.
 
 (** What a call returns is a sample recorded for the function at a point equal to the query (so I1/I2/I3
     speak about every returned object): "one value however often and through whichever route it is queried". *)
@@ -148,11 +152,14 @@ Proof.
   exact (fun a b c Na Nb Nc => conj (peqb_refl a Na) (conj (peqb_sym a b Na Nb) (peqb_trans a b c Na Nb Nc))).
 Qed.
 
-(** I6 — reuse_gradient of a sum is the conjunction of its terms' flags *)
-Theorem C07_reuse_flag_is_conjunction :
+(** I6 — a sum declared differentiable (reuse_gradient) only has differentiable terms.  (The flag is the
+    conjunction over all operands of the construction, cancelled ones included, so a sum may be declared
+    non-differentiable although its remaining terms are differentiable; the property allows that: "a
+    non-differentiable one MAY return a new subgradient".) *)
+Theorem C07_differentiable_sum_has_differentiable_terms :
   forall ops, ops_ok ops = true -> let s := run ops in
-  forall F, (F < nfun s)%nat -> f_leaf (getf s F) = false ->
-    f_reuse (getf s F) = forallb (fun '(k, _) => f_reuse (getf s k)) (f_w (getf s F)).
+  forall F, (F < nfun s)%nat -> f_leaf (getf s F) = false -> f_reuse (getf s F) = true ->
+    forall k q, In (k, q) (f_w (getf s F)) -> f_reuse (getf s k) = true.
 Proof. exact (fun ops H => read_I6 (run ops) (inv_partial ops H)). Qed.
 
 (** Non-vacuity: an accepted sequence with a differentiable and a non-differentiable leaf, the sum
@@ -175,19 +182,39 @@ Proof. vm_compute. repeat split; reflexivity. Qed.
 
 (** the refuting sequences are well scoped but rejected by the guard *)
 Example C07_refuting_sequences_rejected_by_guard :
-  ops_ok ops_zero_weight = false /\ ops_ok ops_zero_weight_diff = false /\ ops_ok ops_zero_query = false /\
-  ops_ok ops_all_cancel = false /\ inv_b (run ops_all_cancel) = false /\
-  inv_b (run ops_zero_weight) = false /\ inv_b (run ops_zero_weight_diff) = false /\
-  inv_b (run ops_zero_query) = false.
+  ops_ok ops_zero_scaling = false /\ ops_ok ops_all_cancel = false /\ ops_ok ops_zero_query = false /\
+  ops_ok ops_ctor_zero_weight = false /\ inv_b (run ops_ctor_zero_weight) = false /\
+  inv_b (run ops_zero_scaling) = false /\ inv_b (run ops_all_cancel) = false /\ inv_b (run ops_zero_query) = false.
+Proof. vm_compute. repeat split; reflexivity. Qed.
+
+(** REGRESSION (F-C07a, repaired by /repo 5162ea4): [f1.oracle(x); F = f1 + f2 - f2; F.oracle(x)].
+    With the current construction ([__add__] prunes: F = {f1: 1}) both sequences are accepted by the guard
+    and satisfy the invariant; with the OLD construction ([run_old]: merge without pruning, F = {f1: 1, f2: 0})
+    the same sequences break it. *)
+Example C07_regression_cancelled_weights :
+  ops_ok ops_cancel_nondiff = true /\ inv_b (run ops_cancel_nondiff) = true /\
+  ops_ok ops_cancel_diff = true /\ inv_b (run ops_cancel_diff) = true /\
+  dict_eqb Nat.eqb (f_w (getf (run ops_cancel_diff) 2%nat)) [(0%nat, 1%Q)] = true /\
+  inv_b (run_old ops_cancel_nondiff) = false /\ inv_b (run_old ops_cancel_diff) = false.
+Proof. vm_compute. repeat split; reflexivity. Qed.
+
+(** the operator tree is followed: a bare zero scaling keeps its zero, a later [+] prunes it *)
+Example C07_construction :
+  let s := run [NewLeaf true; NewLeaf false] in
+  combine_weights s [(0%nat, 0%Q)] = [(0%nat, (0 * 1)%Q)] /\
+  dict_eqb Nat.eqb (combine_weights s [(0%nat, 0%Q); (1%nat, 1%Q)]) [(1%nat, 1%Q)] = true /\
+  combine_weights s [(0%nat, 1%Q); (0%nat, (-1)%Q)] = [] /\
+  dict_eqb Nat.eqb (combine_weights s [(0%nat, 1%Q); (1%nat, 1%Q); (0%nat, (-1)%Q); (0%nat, 2%Q)])
+                   [(1%nat, 1%Q); (0%nat, 2%Q)] = true.
 Proof. vm_compute. repeat split; reflexivity. Qed.
 
 Print Assumptions C07_inv_init.
 Print Assumptions C07_inv_step.
 Print Assumptions C07_inv_partial.
 Print Assumptions C07_inv_b_sound.
-Print Assumptions C07_inv_refuted_zero_weight.
-Print Assumptions C07_inv_refuted_zero_weight_diff.
+Print Assumptions C07_inv_refuted_zero_scaling.
 Print Assumptions C07_inv_refuted_zero_query.
+Print Assumptions C07_inv_refuted_ctor_zero_weight.
 Print Assumptions C07_inv_refuted_all_weights_cancel.
 Print Assumptions C07_oracle_returns_recorded.
 Print Assumptions C07_value_returns_recorded.
@@ -199,4 +226,4 @@ Print Assumptions C07_stationary_zero_total_gradient.
 Print Assumptions C07_lookup_exact.
 Print Assumptions C07_equal_decompositions_same_point.
 Print Assumptions C07_dict_equality_is_equivalence.
-Print Assumptions C07_reuse_flag_is_conjunction.
+Print Assumptions C07_differentiable_sum_has_differentiable_terms.
